@@ -3,7 +3,7 @@
    and the parsed text of lib/apk/db/installed. [check_case] compares with the
    model (mismatch:...) and runs the validators of Spec/InstallSpec.v on the
    observation (viol:...). *)
-From Apko Require Export Base.Prelude Model.Install Model.InstallDb Model.InstallRead Spec.InstallSpec.
+From Apko Require Export Base.Prelude Model.Install Model.InstallDb Model.InstallRead Model.InstallLinkWin Spec.InstallSpec.
 Open Scope string_scope. Open Scope list_scope.
 
 Record case := {
@@ -151,6 +151,26 @@ Fixpoint stanzas_line_up (pkgs : list pkg) (db : list dbpkg) : bool :=
   | _, _ => false
   end.
 
+(* tarfs, a path shipped as a symbolic link only and not there before: the link in
+   the observed tree is the one the walk of Model/InstallLinkWin.v names *)
+Definition link_winner_ok (c : case) : bool :=
+  match c_backend c with
+  | Lazy =>
+      forallb (fun h =>
+        if kind_eqb (h_kind h) KSym &&
+           forallb (fun x => negb (path_eqb (h_path x) (h_path h)) || kind_eqb (h_kind x) KSym) (all_hdrs (c_pkgs c)) &&
+           match tree_get (c_pre c) (h_path h) with None => true | Some _ => false end &&
+           (* not reached through a symbolic link in directory position (C07-F14: two names for one place) *)
+           negb (existsb (fun x => kind_eqb (h_kind x) KSym && is_prefix_path (h_path x) (h_path h) &&
+                                   negb (path_eqb (h_path x) (h_path h))) (all_hdrs (c_pkgs c)))
+        then match sym_winner (c_pkgs c) (h_path h), tree_get (o_tree c) (h_path h) with
+             | Some (_, w), Some n => tkind_eqb (t_kind n) TSym && N.eqb (t_sum n) (h_sum w)
+             | _, _ => false
+             end
+        else true) (all_hdrs (c_pkgs c))
+  | _ => true
+  end.
+
 Definition check_model (c : case) : list string :=
   match install_l (c_backend c) (c_pkgs c) (init_of (c_pre c)) with
   | RFail EUnsupported _ => ["mismatch:model-declines-case"]
@@ -171,7 +191,8 @@ Definition check_model (c : case) : list string :=
          (* the writer of Model/InstallDb.v: one header per name (the last), once
             per occurrence; equal to [f_db f] when no package ships a path twice
             (Proofs/InstallDbProofs.v: db_of_nodup) *)
-         tag_if (negb (db_matches (c_pkgs c) (db_of f) (o_db c))) "mismatch:installed-db"
+         tag_if (negb (db_matches (c_pkgs c) (db_of f) (o_db c))) "mismatch:installed-db" ++
+         tag_if (negb (link_winner_ok c)) "mismatch:link-winner"
        else [])
   end.
 
